@@ -11,3 +11,8 @@ pub mod c19;
 pub mod c12;
 #[cfg(kani)]
 pub mod c13;
+#[cfg(kani)]
+pub mod c15;
+pub mod c15_readbuf;
+#[cfg(kani)]
+pub mod c16;
